@@ -375,6 +375,42 @@ example : ((⟨0.5, [], true⟩ : RwpObj ℝ).moveAssign ⟨0.3, [], true⟩).1.
   · rw [Nat.floor_eq_zero]; norm_num
   · rw [Nat.floor_eq_iff (by norm_num)]; norm_num
 
+/-! ### Construction and hand-over as a state machine (every overload, any history) -/
+
+/-- the constructor overloads without a seed build `Resampling(1)`; the one without a ratio keeps the in-class
+    default `prior_ratio_ = 0.5` -/
+theorem rs_constructor_defaults (r : ℝ) :
+    (RsCtor.rsDefault : RsCtor ℝ).build = (RsCtor.rs 1).build ∧
+    (RsCtor.rwp2 r).build = (RsCtor.rwp3 r 1).build ∧
+    (RsCtor.rwp1 : RsCtor ℝ).build = (RsCtor.rwp3 0.5 1).build ∧
+    ((RsCtor.rs 7 : RsCtor ℝ).build).drawn = 0 ∧ ((RsCtor.rwp3 r 7).build).prior = true :=
+  ⟨rfl, rfl, rfl, rfl, rfl⟩
+
+/-- History level: through any sequence of `resample()` calls, copy / move constructions and copy / move
+    assignments (onto objects of any configuration) the object in use has the class, the prior ratio and the seed
+    of the original, and its generator has produced exactly one draw per call served — by the original or by any
+    of its successors: call `i` of the history uses draw `i` of the original's stream (`sel_calls_independent`
+    then gives the per-call behaviour). -/
+theorem rs_object_history (c : RsCfg ℝ) (ops : List (RsOp ℝ)) :
+    (c.run ops).prior = c.prior ∧ (c.run ops).ratio = c.ratio ∧ (c.run ops).seed = c.seed ∧
+    (c.run ops).drawn = c.drawn + (ops.filter RsOp.isCall).length := by
+  induction ops generalizing c with
+  | nil => exact ⟨rfl, rfl, rfl, rfl⟩
+  | cons op ops ih =>
+    have h := ih (c.apply op)
+    have hrun : c.run (op :: ops) = (c.apply op).run ops := rfl
+    rw [hrun]
+    cases op <;> simp only [RsCfg.apply, List.filter_cons, RsOp.isCall] at h ⊢ <;>
+      exact ⟨h.1, h.2.1, h.2.2.1, by rw [h.2.2.2]; simp; try omega⟩
+
+/-- non-vacuity: the history of the defect witness (f722f03) — an object built with ratio `0.3`, move-assigned
+    onto one built with ratio `0.5` and seed `999`, then used twice -/
+example : let o := ((RsCtor.rwp3 (0.3 : ℝ) 5).build).run [.moveAssign ((RsCtor.rwp3 0.5 999).build), .call, .call]
+    o.ratio = 0.3 ∧ o.seed = 5 ∧ o.drawn = 2 ∧ o.prior = true := by
+  intro o
+  have h := rs_object_history ((RsCtor.rwp3 (0.3 : ℝ) 5).build) [.moveAssign ((RsCtor.rwp3 0.5 999).build), .call, .call]
+  exact ⟨h.2.1, h.2.2.1, by rw [h.2.2.2]; rfl, h.1⟩
+
 /-! ### Non-vacuity and literal applicability to the executed `ℚ` instance -/
 
 /-- the hypotheses of the selection theorems are satisfiable on a non-trivial instance, and the
